@@ -262,6 +262,42 @@ BUILTIN_SETS = {
 }
 
 
+# pest's built-in rules for Unicode general categories (the names pest gives them -> General_Category values)
+GENERAL_CATEGORIES = {
+    "LETTER": ("L",), "CASED_LETTER": ("Lu", "Ll", "Lt"), "UPPERCASE_LETTER": ("Lu",), "LOWERCASE_LETTER": ("Ll",), "TITLECASE_LETTER": ("Lt",),
+    "MODIFIER_LETTER": ("Lm",), "OTHER_LETTER": ("Lo",), "MARK": ("M",), "NONSPACING_MARK": ("Mn",), "SPACING_MARK": ("Mc",), "ENCLOSING_MARK": ("Me",),
+    "NUMBER": ("N",), "DECIMAL_NUMBER": ("Nd",), "LETTER_NUMBER": ("Nl",), "OTHER_NUMBER": ("No",), "PUNCTUATION": ("P",),
+    "CONNECTOR_PUNCTUATION": ("Pc",), "DASH_PUNCTUATION": ("Pd",), "OPEN_PUNCTUATION": ("Ps",), "CLOSE_PUNCTUATION": ("Pe",),
+    "INITIAL_PUNCTUATION": ("Pi",), "FINAL_PUNCTUATION": ("Pf",), "OTHER_PUNCTUATION": ("Po",), "SYMBOL": ("S",), "MATH_SYMBOL": ("Sm",),
+    "CURRENCY_SYMBOL": ("Sc",), "MODIFIER_SYMBOL": ("Sk",), "OTHER_SYMBOL": ("So",), "SEPARATOR": ("Z",), "SPACE_SEPARATOR": ("Zs",),
+    "LINE_SEPARATOR": ("Zl",), "PARAGRAPH_SEPARATOR": ("Zp",), "OTHER": ("C",), "CONTROL": ("Cc",), "FORMAT": ("Cf",), "SURROGATE": ("Cs",),
+    "PRIVATE_USE": ("Co",), "UNASSIGNED": ("Cn",),
+}
+_CATEGORY_SETS: dict[str, tuple] = {}
+
+
+def in_category(name: str, ch: str) -> bool:
+    import unicodedata
+
+    cat = unicodedata.category(ch)
+    return any(cat == c or (len(c) == 1 and cat.startswith(c)) for c in GENERAL_CATEGORIES[name])
+
+
+def category_set(name: str) -> tuple:
+    """The code points of a general-category built-in as sorted, merged ranges (computed once per name, from the
+    interpreter's unicodedata: the reference side)."""
+    if name not in _CATEGORY_SETS:
+        out: list[list[int]] = []
+        for cp in range(MAXCP + 1):
+            if in_category(name, chr(cp)):
+                if out and out[-1][1] == cp - 1:
+                    out[-1][1] = cp
+                else:
+                    out.append([cp, cp])
+        _CATEGORY_SETS[name] = tuple((a, b) for a, b in out)
+    return _CATEGORY_SETS[name]
+
+
 # ----------------------------------------------------------------------------- PEG -> regular (exact or declined)
 class Peg2Re:
     def __init__(self, rules: dict, where: str, extra_sets: dict | None = None):
@@ -282,6 +318,8 @@ class Peg2Re:
         if k == "id":
             if e[1] in self.sets:
                 return self.sets[e[1]]
+            if e[1] in GENERAL_CATEGORIES and e[1] not in self.rules:
+                return category_set(e[1])
             if e[1] in self.rules and e[1] not in self.stack:
                 self.stack.append(e[1])
                 try:
